@@ -76,6 +76,20 @@ class VMachine:
         import mpf.tests.MpfTestCase as mtc
         mtc.LOCAL_START_TIMEOUT = start_timeout
         base = {"plain": MpfTestCase, "game": MpfGameTestCase, "fake": MpfFakeGameTestCase}[kind]
+        if not getattr(mtc.UnitTestConfigLoader, "_verif_nocache", False):
+            # MPF's unit-test loader always reads/writes pickled config caches in the temp dir; machine dirs are
+            # unique per case here, so the cache can never hit and only litters the temp dir
+            from mpf.core.config_loader import YamlMultifileConfigLoader
+
+            class _NoCacheLoader(mtc.UnitTestConfigLoader):
+                _verif_nocache = True
+
+                def __init__(self, machine_path, configfile, config_defaults, config_patches, spec_patches):
+                    YamlMultifileConfigLoader.__init__(self, machine_path, configfile, False, False)
+                    self.config_defaults = config_defaults
+                    self.config_patches = config_patches
+                    self.spec_patches = spec_patches
+            mtc.UnitTestConfigLoader = _NoCacheLoader
 
         self.path = tempfile.mkdtemp(prefix="vm-")
         os.makedirs(os.path.join(self.path, "config"))
